@@ -54,6 +54,9 @@ def decide(pid, names, tier, pool=6):
     lh = dir_hash(LDIR)
     th = tree_hash()
 
+    stop = {'flag': False}
+    procs = []
+
     def one(name):
         key = 'L|%s|%s|%s|%s' % (th, lh, name, budgets)
         c = cache_get(key)
@@ -69,13 +72,33 @@ def decide(pid, names, tier, pool=6):
             return c
         log = os.path.join(workdir('logs'), 'L-%s-%d.log' % (name, os.getpid()))
         t0 = time.time()
+        if stop['flag']:
+            return [dict(name=name, statement='', functions=[], status='inconclusive', detail='not run: another obligation of this check was already violated (natively replayed)', seconds=0, queries=0, vacuity=None, canary=None)]
         try:
-            p = subprocess.run(['python3-vt', os.path.join(LDIR, 'run_spec.py'), ll, REPO, exe or '', name, str(SEED), budgets],
-                               capture_output=True, text=True, timeout=3600 if tier == 'quick' else 4 * 3600)
-            open(log, 'w').write(p.stdout + p.stderr)
-            for ln in p.stdout.splitlines():
+            pr = subprocess.Popen(['python3-vt', os.path.join(LDIR, 'run_spec.py'), ll, REPO, exe or '', name, str(SEED), budgets],
+                                  stdout=subprocess.PIPE, stderr=subprocess.PIPE, text=True)
+            procs.append(pr)
+            try:
+                so, se = pr.communicate(timeout=3600 if tier == 'quick' else 4 * 3600)
+            except subprocess.TimeoutExpired:
+                pr.kill()
+                pr.communicate()
+                raise
+            open(log, 'w').write(so + se)
+            if stop['flag'] and pr.returncode != 0:
+                return [dict(name=name, statement='', functions=[], status='inconclusive', detail='stopped: another obligation of this check was already violated (natively replayed)', seconds=time.time() - t0, queries=0, vacuity=None, canary=None)]
+            for ln in so.splitlines():
                 if ln.startswith('RESULT-JSON '):
                     res = json.loads(ln[12:])
+                    if any(r['status'] == 'violated' for r in res):
+                        # a natively replayed violation decides the check: stop the obligations still running
+                        stop['flag'] = True
+                        for q_ in procs:
+                            if q_ is not pr and q_.poll() is None:
+                                try:
+                                    q_.kill()
+                                except Exception:
+                                    pass
                     # cached: complete proofs; and the one outcome that is withdrawn from the claim anyway - the
                     # U256::square value goal left UNDECIDED (never refuted) by the same budgets on the same tree and
                     # engine sources - so that C06 and C07 do not both spend 20 minutes rediscovering it
